@@ -127,6 +127,7 @@ static inline uint64_t LBF(lost_rank)(LB_C o, const LB_C *n)
         }
     return MAXCAP;
 }
+static inline bool LBF(view_eq)(const LB_C *a, const LB_C *b, uint64_t g) { return LBF(vw_same)(LBF(view)(a, g), LBF(view)(b, g)); }
 static inline bool LBF(has_o)(LB_C o, uint64_t k) { return LBF(has)(&o, k); }
 static inline uint64_t LBF(cap_o)(LB_C o) { return LBF(cap)(&o); }
 static inline uint64_t LBF(key_of_node_o)(LB_C o, cstl_iter n) { return LBF(key_of_node)(&o, n); }
